@@ -31,6 +31,15 @@ Judge(o) ==
          /\ (IsNone(o.path) <=> m.loc = TI!NoValue)
          /\ (~IsNone(o.path) => o.path = m.loc)
          /\ (o.datechecked => DateOrNone(o.date) = m.date)
+    [] o.f = "restored" ->
+         \* trash-restore was asked for the only entry of a trash directory (content o.content, base o.base): the payload
+         \* must land at the location its .trashinfo means (o.landed: where it was found afterwards, or none)
+         \* o.occupied: something already exists at that location (C06): nothing lands, the run fails, and the occupant,
+         \* the payload and the .trashinfo are as before (o.intact)
+         LET m == TI!Meaning(o.content, o.base) IN
+         IF m.loc = TI!NoValue THEN IsNone(o.landed)
+         ELSE IF o.occupied THEN IsNone(o.landed) /\ o.intact /\ o.failed
+         ELSE ~IsNone(o.landed) /\ TI!SameEntry(o.landed, m.loc)
     [] o.f = "expired" ->
          \* trash-empty DAYS purged (o.purged) an entry whose .trashinfo content is o.content at time o.now
          LET d == TI!ParseDate(o.content) IN
